@@ -60,6 +60,33 @@ def run(res):
                 h.notes.append('OBDD(str(o.root), o.ordering) == o is %r for %s (printed %r)' % (rt1, B.render(e), str(o.root)))
             if rt2 is not True:
                 h.notes.append('OBDD(str(o)) == o is %r for %s (printed %r)' % (rt2, B.render(e), str(o)))
+            # the OBDD owns its ordering: the caller's list may change afterwards (history), the printed form and both
+            # round trips must not
+            mine = list(ordering)
+            o2 = B.attempt(lambda: OBDD(B.render(e), mine))
+            if not isinstance(o2, tuple):
+                before = (str(o2), str(o2.root))
+                how = rng.choice(['append', 'reverse', 'clear', 'pop', 'rename'])
+                if how == 'append':
+                    mine.append('zz9')
+                elif how == 'reverse':
+                    mine.reverse()
+                    mine.append('zz9')
+                elif how == 'clear':
+                    del mine[:]
+                elif how == 'pop':
+                    mine.pop()
+                else:
+                    mine[0] = 'zz9'
+                after = B.attempt(lambda: (str(o2), str(o2.root)))
+                if after != before:
+                    h.notes.append('after the caller changed (%s) the list it had passed as ordering %s, str(o) went from '
+                                   '%r to %r' % (how, ordering, before, after))
+                else:
+                    rt3 = B.attempt(lambda: (OBDD(str(o2)) == o2, o2 == o))
+                    if rt3 != (True, True):
+                        h.notes.append('after the caller changed (%s) the list it had passed as ordering %s: '
+                                       '(OBDD(str(o)) == o, o == twin) is %r' % (how, ordering, rt3))
             # synonyms: & / and, | / or, ~ / not
             def syn(x):
                 if x[0] == 'not':
